@@ -623,7 +623,26 @@ def classify(asm, res):
     infra = []
     text = asm.text()
     errs = [d for d in res["diags"] if d.get("level") == "error"]
+    def _local_spans(spans, fname):
+        """spans that lie in the assembled file; spans inside macro expansions (panic!, assert!, ...) are replaced by the
+        span of the macro invocation in our file"""
+        out = []
+        for s_ in spans:
+            cur = s_
+            hops = 0
+            while cur is not None and os.path.basename(cur.get("file_name", "")) != fname and hops < 8:
+                exp = cur.get("expansion")
+                cur = exp.get("span") if exp else None
+                hops += 1
+            if cur is not None:
+                c2 = dict(cur)
+                c2["label"] = s_.get("label")
+                c2["is_primary"] = s_.get("is_primary")
+                out.append(c2)
+        return out
+    fname = os.path.basename(res["cmd"].split()[1]) if res.get("cmd") else ""
     for d in errs:
+        d["spans"] = _local_spans(d.get("spans", []), fname) or d.get("spans", [])
         msg = d.get("message", "")
         if msg.startswith("aborting due to") or msg.startswith("could not compile"):
             continue
